@@ -315,7 +315,8 @@ def run_case(ctx, case):
                         # pinned get_signatures finding) 3-second signature cache to decide between positional and
                         # keyword-only completions
                         shape = ":inside-call-opened-on-earlier-line"
-                devs.append(("history-dependent-answer:%s:%s%s" % (q[0], "with-path" if p else "no-path", shape),
+                pathpart = "" if shape == ":same-signatures-different-order" else ":with-path" if p else ":no-path"
+                devs.append(("history-dependent-answer:%s%s%s" % (q[0], pathpart, shape),
                              "step %d (%s) %s at %s: with history %s ; fresh process %s" % (si, last_ops, q[0], (q[1], q[2]), str(a)[:300], str(b)[:300])))
     ops = {s["op"] for s in case["steps"]}
     for o in ops:
